@@ -247,6 +247,17 @@ def main(argv=None):
     if args.verbose:
         for r in sorted(results, key=lambda r: -r["secs"]):
             print(f"  {r['harness']}: paths={r['paths']} aborted={r['aborted']} checks={len(r['checks'])} secs={r['secs']:.1f} err={r['error']}")
+    crosscheck = []
+    if tier == "thorough" and not args.only:
+        # CPython cross-check: every harness also runs natively on generated inputs against
+        # the real package; a failing input is a violation whatever the solver said
+        from multiprocessing.dummy import Pool as ThreadPool
+
+        names = [(m, f) for (m, f) in jobs if not f.startswith("canary_")]
+        with ThreadPool(min(args.jobs, max(1, len(names)))) as tp:
+            outs = tp.map(lambda mf: native_fuzz(mf[0], mf[1], 4000, seed + 1, 90), names)
+        crosscheck = list(zip(names, outs))
+    meta["crosscheck"] = crosscheck
     return report(prop, tier, seed, t0, results, meta, args)
 
 
@@ -346,7 +357,7 @@ def report(prop, tier, seed, t0, results, meta, args):
             json.dump(rec, f, indent=1, default=repr)
         kf = None
         for k in known:
-            if k.get("harness") == fname and c["label"].startswith(k.get("label", "\0")):
+            if (k.get("harness") == fname and c["label"].startswith(k.get("label", "\0"))) or (k.get("region") and k["region"] in c["label"]):
                 kf = k
         if kf is not None:
             known_hit.append((kf, rp, nat))
@@ -362,7 +373,7 @@ def report(prop, tier, seed, t0, results, meta, args):
                        "how_to_replay": f"PYTHONPATH=/verif:/repo/src /venv/bin/python -m pyvc.native {modname} {fname} {rp}"}, f, indent=1, default=repr)
         kf = None
         for k in known:
-            if k.get("harness") == fname and lab.startswith(k.get("label", "\0")):
+            if (k.get("harness") == fname and lab.startswith(k.get("label", "\0"))) or (k.get("region") and k["region"] in lab):
                 kf = k
         if kf is not None:
             known_hit.append((kf, rp, fz))
@@ -388,6 +399,28 @@ def report(prop, tier, seed, t0, results, meta, args):
                                "undecided": c["label"], "model": fz["model"], "native": fz,
                                "how_to_replay": f"PYTHONPATH=/verif:/repo/src /venv/bin/python -m pyvc.native {modname} {fname} {rp}"}, f, indent=1, default=repr)
                 violations.append((short, {"label": lab, "where": "native search after solver unknown", "model": fz["model"]}, rp, fz))
+
+    cc_runs = 0
+    for (modname, fname), fz in meta.get("crosscheck", []):
+        cc_runs += int(fz.get("runs", 0) or 0)
+        if fz.get("verdict") == "confirmed":
+            lab = fz["failed"][0]["label"]
+            short = modname.split(".", 1)[1] + "." + fname if modname.startswith("contracts.") else modname + "." + fname
+            rp = os.path.join(VERIF, "replays", prop, (fname + ".crosscheck." + lab).replace("/", "_")[:150] + ".json")
+            with open(rp, "w") as f:
+                json.dump({"property": prop, "harness": modname + "." + fname, "obligation": f"{short}:{lab}", "found_by": "thorough tier: native cross-check of the harness on generated inputs",
+                           "model": fz["model"], "native": fz, "how_to_replay": f"PYTHONPATH=/verif:/repo/src /venv/bin/python -m pyvc.native {modname} {fname} {rp}"}, f, indent=1, default=repr)
+            kf = None
+            for k in known:
+                if (k.get("harness") == fname and lab.startswith(k.get("label", "\0"))) or (k.get("region") and k["region"] in lab):
+                    kf = k
+            if kf is not None:
+                if not any(kf is x[0] for x in known_hit):
+                    known_hit.append((kf, rp, fz))
+            else:
+                violations.append((short, {"label": lab, "where": "native cross-check", "model": fz["model"]}, rp, fz))
+        elif fz.get("verdict") not in ("nothing-found",):
+            errors.append(f"{fname}: native cross-check did not run: {str(fz)[:300]}")
 
     wall = time.time() - t0
     n_ob = len(obligations)
@@ -423,6 +456,7 @@ def report(prop, tier, seed, t0, results, meta, args):
         "undecided": [f"{h}:{c['label']} ({c['reason']})" for (h, c) in unknown],
         "known_findings_hit": [k["id"] for (k, _, _) in known_hit],
         "bounded_stand_ins": meta["bounded"] + bounded_runs,
+        "native_crosscheck_runs": cc_runs,
         "samples": samples,
         "explanation": meta["explanation"]
         or "every obligation is a verification condition generated from the current source of /repo by symbolic execution of the real AST against sidecar contracts, discharged by an SMT solver for all inputs",
@@ -446,7 +480,11 @@ def report(prop, tier, seed, t0, results, meta, args):
     print(f"[{prop}] tier={tier} harnesses={len(results)} obligations={n_ob} discharged={n_dis} queries={total_queries} solver_s={solver_secs:.1f} wall_s={wall:.1f}")
     for b in bounded_runs:
         print(f"BOUNDED-FALLBACK property={prop} harness={b['harness']} ({b['why']}): {b['bound']} -> {b['result']}")
+    seen_kf = set()
     for k, rp, nat in known_hit:
+        if k["id"] in seen_kf:
+            continue
+        seen_kf.add(k["id"])
         print(f"KNOWN-FINDING: property={prop} {k['id']} {k['what']} (replay={rp}, native={nat.get('verdict')})")
     for e in errors:
         print(f"CHECKER-ERROR property={prop} {e}")
